@@ -90,6 +90,11 @@ PROP(C10) __CPROVER_ensures((OK && g_eval_n == 1 && (V_IS(A1, LITERAL) || V_IS(A
 PROP(C10) __CPROVER_ensures((OK && g_eval_n == 1 && (V_IS(A1, INTEGER) || V_IS(A1, NUMERIC)) && !V_ISNULL(A1)) ==> (!V_ISNULL(RET) && (RET->_value.i & 0xff) == 1))
 PROP(C10) __CPROVER_ensures((OK && g_eval_n == 1 && V_ISNULL(A1)) ==> (!V_ISNULL(RET) && (RET->_value.i & 0xff) == 0))
 #endif
+#ifdef BUILTIN_IS_REPLACE
+/* C10 ("returns the documented value": all occurrences of y replaced by z): when no search finds an occurrence the result has the length
+ * of the subject -- it IS the subject; which characters it holds is outside the string model (size and identity only) */
+PROP(C10) __CPROVER_ensures((OK && g_eval_n == 3 && V_IS(A1, LITERAL) && !V_ISNULL(A1) && V_IS(A2, LITERAL) && !V_ISNULL(A2) && g_eval_str[1][1] != 0 && g_find_hits == 0) ==> (V_IS(RET, LITERAL) && !V_ISNULL(RET) && STR_W(RET->_value.p, 1) == g_eval_str[0][1]))
+#endif
 #ifdef BUILTIN_IS_MOD
 /* C03: mod(a, b) on two integers is the remainder of the division truncated toward zero, for every non-zero divisor (mod(x, -1) is 0, also for
  * the smallest integer); a zero divisor is DIVIDE_BY_ZERO */
